@@ -208,7 +208,7 @@ var c11Colliding = [][2]string{
 	{"lbbzls", "ebslxk"}, {"iedply", "beubxq"}, {"ihgtdj", "bhxfpb"}, // adler32
 	{"mkgmmj", "lkyhhq"}, {"arbvyf", "dsjhfs"}, {"ylapzz", "cktztd"}, // fnv32
 	{"dkpofy", "ejiirr"}, {"olqflm", "fzvdzq"}, {"mfzois", "ziqpjb"}, {"costarring", "liquid"}, // fnv32a
-	{"plumless", "buckeroo"}, // crc32
+	{"plumless", "buckeroo"},   // crc32
 	{"Aa", "BB"}, {"az", "bY"}, // h*31+c, h*33+c
 }
 
